@@ -19,6 +19,7 @@ import (
 	"crypto/rand"
 	"crypto/x509"
 	"crypto/x509/pkix"
+	"encoding/asn1"
 	"encoding/hex"
 	"encoding/json"
 	"errors"
@@ -34,6 +35,7 @@ import (
 	"go.step.sm/crypto/x509util"
 
 	"github.com/smallstep/certificates/acme"
+	"github.com/smallstep/certificates/acme/wire"
 	acmeapi "github.com/smallstep/certificates/acme/api"
 	"github.com/smallstep/certificates/authority/provisioner"
 	c "verif/harness/common"
@@ -54,6 +56,10 @@ type Case struct {
 	Raw16  bool     // rewrite IPv4 addresses of the parsed CSR to their 16-byte form
 	Emails []string
 	URIs   []string
+	// Wire: display-name subject attributes (OID 2.16.840.1.113730.3.1.241; "#int" = an INTEGER
+	// value instead of a string) and Subject.Organization
+	DN  []string `json:",omitempty"`
+	Org []string `json:",omitempty"`
 }
 
 var (
@@ -127,9 +133,31 @@ func idsField(ids []ID) string {
 	for i, id := range ids {
 		_, err := x509util.SanitizeName(strings.TrimPrefix(id.V, "*."))
 		out[i] = typCode(id.T) + ":" + c.X(id.V) + ":" + ipHex(net.ParseIP(id.V)) + ":" + c.B(err == nil)
+		// Wire identifiers: what wire.ParseUserID / ParseDeviceID and url.Parse make of the value
+		switch acme.IdentifierType(id.T) {
+		case acme.WireUser:
+			w, perr := wire.ParseUserID(id.V)
+			out[i] += ":" + c.B(perr == nil) + ":" + c.X(w.Name) + ":" + c.X(w.Domain) + ":" + uriField(w.Handle, perr == nil)
+		case acme.WireDevice:
+			w, perr := wire.ParseDeviceID(id.V)
+			out[i] += ":" + c.B(perr == nil) + ":" + c.X(w.Name) + ":" + c.X(w.Domain) + ":" + uriField(w.ClientID, perr == nil)
+		}
 	}
 	return c.List(out)
 }
+
+func uriField(raw string, ok bool) string {
+	if !ok {
+		return "!"
+	}
+	u, err := url.Parse(raw)
+	if err != nil {
+		return "!"
+	}
+	return c.X(u.String())
+}
+
+var oidDisplayName = asn1.ObjectIdentifier{2, 16, 840, 1, 113730, 3, 1, 241}
 
 func hasWire(ids []ID) bool {
 	for _, id := range ids {
@@ -150,7 +178,14 @@ func acmeIDs(ids []ID) []acme.Identifier {
 
 // buildCSR creates a real signed CSR and parses it back, exactly as FinalizeRequest.Validate does.
 func (k *Case) buildCSR() (*x509.CertificateRequest, bool) {
-	tmpl := &x509.CertificateRequest{Subject: pkix.Name{CommonName: k.CN}, DNSNames: k.DNS, EmailAddresses: k.Emails}
+	tmpl := &x509.CertificateRequest{Subject: pkix.Name{CommonName: k.CN, Organization: k.Org}, DNSNames: k.DNS, EmailAddresses: k.Emails}
+	for _, d := range k.DN {
+		var v interface{} = d
+		if d == "#int" {
+			v = 5
+		}
+		tmpl.Subject.ExtraNames = append(tmpl.Subject.ExtraNames, pkix.AttributeTypeAndValue{Type: oidDisplayName, Value: v})
+	}
 	for _, s := range k.IPs {
 		ip := net.ParseIP(s)
 		if ip == nil {
@@ -231,6 +266,8 @@ func sanList(sans []x509util.SubjectAlternativeName) string {
 			out[i] = "i~" + ip16Hex(net.ParseIP(s.Value))
 		case x509util.PermanentIdentifierType:
 			out[i] = "p~" + c.X(s.Value)
+		case x509util.URIType:
+			out[i] = "u~" + c.X(s.Value)
 		default:
 			out[i] = "?~" + c.X(s.Type+":"+s.Value)
 		}
@@ -258,9 +295,6 @@ func (k *Case) runSans(canon *x509.CertificateRequest) (out string) {
 			out = "crash"
 		}
 	}()
-	if hasWire(k.IDs) && len(canon.EmailAddresses) == 0 {
-		return "unmodelled"
-	}
 	o := &acme.Order{ID: "o", Identifiers: acmeIDs(k.IDs)}
 	sans, err := o.VerifSans(canon)
 	if err != nil {
@@ -312,15 +346,13 @@ func (k *Case) runFinalize(csr *x509.CertificateRequest) (out string) {
 		MockUpdateOrder: func(context.Context, *acme.Order) error { return nil },
 	}
 	wire := hasWire(k.IDs)
-	err := o.Finalize(context.Background(), db, cloneCSR(csr), ca.Auth, prov)
-	if wire {
-		// the Wire branch is outside the model; only "no abort" is observed. The fingerprint
-		// comparison comes before it and is modelled.
-		if err != nil && errClass(err) == "unauthorized" {
-			return "unauthorized"
-		}
-		return "unmodelled"
+	var adb acme.DB = db
+	if wire { // Finalize needs a WireDB and the tokens the Wire challenges stored for the order
+		adb = &acme.MockWireDB{MockDB: *db,
+			MockGetDpopToken: func(context.Context, string) (map[string]interface{}, error) { return map[string]interface{}{"sub": "x"}, nil },
+			MockGetOidcToken: func(context.Context, string) (map[string]interface{}, error) { return map[string]interface{}{"name": "x"}, nil }}
 	}
+	err := o.Finalize(context.Background(), adb, cloneCSR(csr), ca.Auth, prov)
 	if err != nil {
 		return errClass(err)
 	}
@@ -357,6 +389,13 @@ func (k *Case) runFinalize(csr *x509.CertificateRequest) (out string) {
 	}
 	for range all.HardwareModuleNames {
 		names = append(names, "h~x")
+	}
+	if wire {
+		org := ""
+		if len(leaf.Subject.Organization) > 0 {
+			org = leaf.Subject.Organization[0]
+		}
+		return "acceptwire:" + c.X(leaf.Subject.CommonName) + ":" + c.X(org) + ":" + c.List(names)
 	}
 	return "accept:" + tmpl + ":" + c.X(leaf.Subject.CommonName) + ":" + c.List(names)
 }
@@ -400,10 +439,24 @@ func (k *Case) emit(o *c.Out) {
 		for i, ip := range csr.IPAddresses {
 			ips[i] = ipHex(ip)
 		}
-		line := fmt.Sprintf("kind=fin ids=%s fps=%s cfp=%s cn=%s cnip=%s dns=%s ips=%s em=%d uri=%d%s",
+		us := make([]string, len(csr.URIs))
+		for i, u := range csr.URIs {
+			us[i] = c.X(u.String())
+		}
+		var dn []string
+		for _, a := range csr.Subject.Names {
+			if a.Type.Equal(oidDisplayName) {
+				if v, ok := a.Value.(string); ok {
+					dn = append(dn, c.X(v))
+				} else {
+					dn = append(dn, "!")
+				}
+			}
+		}
+		line := fmt.Sprintf("kind=fin ids=%s fps=%s cfp=%s cn=%s cnip=%s dns=%s ips=%s em=%d uris=%s dn=%s org=%s%s",
 			idsField(k.IDs), c.List(fpl), c.Opt(cfp, err == nil), c.X(csr.Subject.CommonName),
 			ipHex(net.ParseIP(csr.Subject.CommonName)), xs(csr.DNSNames), c.List(ips),
-			len(csr.EmailAddresses), len(csr.URIs), tail)
+			len(csr.EmailAddresses), c.List(us), c.List(dn), xs(csr.Subject.Organization), tail)
 		canon, cs := k.runCanon(csr)
 		ss := "crash"
 		if canon != nil {
@@ -418,9 +471,9 @@ func (k *Case) emit(o *c.Out) {
 // ---------- generators ----------
 
 var dnsPool = []string{"a.example.com", "b.example.com", "example.com", "*.example.com", "www.example.org", "host.local",
-	"x1.test", "zz.example.com", "aa.example.com", "a.example.co", "xn--bcher-kva.example"}
+	"x1.test", "zz.example.com", "aa.example.com", "a.example.co", "xn--bcher-kva.example", "kiwi.example.com"}
 var ipPool = []string{"10.0.0.1", "10.0.0.2", "192.168.1.7", "127.0.0.1", "::1", "fd00::1", "2001:db8::5", "1.2.3.4", "0.0.0.0", "255.255.255.255", "::", "::ffff:0:1"}
-var pidPool = []string{"device-1234", "SN:0001", "a.example.com", "10.0.0.1", "x"}
+var pidPool = []string{"device-1234", "SN:0001", "a.example.com", "10.0.0.1", "x", "*.device-1234"}
 var emailPool = []string{"root@example.com", "a@a.example.com"}
 var uriPool = []string{"https://a.example.com/x", "spiffe://example.com/w", "wireapp://CzbfFjDOQrenCbDxVmgnFw!594930e9d50bb175@wire.com"}
 
@@ -603,6 +656,10 @@ func genFin(r *c.Rng) *Case {
 			if len(k.DNS) > 0 && r.Chance(1, 2) {
 				i := r.Intn(len(k.DNS))
 				k.CN = mixCase(r, k.DNS[i])
+				if r.Chance(1, 5) {
+					// letters outside ASCII whose Unicode lower case is an ASCII letter: KELVIN SIGN, I WITH DOT ABOVE
+					k.CN = unicodeTwin(k.CN)
+				}
 				if r.Chance(1, 2) {
 					k.DNS = append(k.DNS[:i:i], k.DNS[i+1:]...)
 				}
@@ -635,6 +692,18 @@ func genFin(r *c.Rng) *Case {
 	return k
 }
 
+// unicodeTwin replaces the first k/K by U+212A and, failing that, the first i/I by U+0130: a
+// different name that strings.ToLower maps onto the ASCII one
+func unicodeTwin(s string) string {
+	if i := strings.IndexAny(s, "kK"); i >= 0 {
+		return s[:i] + "\u212a" + s[i+1:]
+	}
+	if i := strings.IndexAny(s, "iI"); i >= 0 {
+		return s[:i] + "\u0130" + s[i+1:]
+	}
+	return s
+}
+
 // genMalformed: identifier lists the API would have refused, orders of foreign types, odd names.
 func genMalformed(r *c.Rng) *Case {
 	k := genFin(r)
@@ -656,8 +725,90 @@ func genMalformed(r *c.Rng) *Case {
 	return k
 }
 
+// genWire: a Wire order (one user and one device identifier, mostly) and the CSR a Wire client
+// would send (display name attribute, Organization = domain, the two URIs), mutated around every
+// test of createWireSubject and of the URI comparison.
+func genWire(r *c.Rng) *Case {
+	name := c.Pick(r, []string{"Alice Smith", "Bob"})
+	domain := c.Pick(r, []string{"wire.com", "example.org"})
+	handle := c.Pick(r, []string{"wireapp://%40alice_wire@wire.com", "wireapp://%40bob@example.org"})
+	client := c.Pick(r, []string{"wireapp://CzbfFjDOQrenCbDxVmgnFw!594930e9d50bb175@wire.com", "wireapp://u!d@example.org"})
+	user := fmt.Sprintf(`{"name":%q,"domain":%q,"handle":%q}`, name, domain, handle)
+	dev := fmt.Sprintf(`{"name":%q,"domain":%q,"client-id":%q,"handle":%q}`, name, domain, client, handle)
+	k := &Case{Kind: "fin", Key: 1, IDs: []ID{{"wireapp-user", user}, {"wireapp-device", dev}},
+		DN: []string{name}, Org: []string{domain}, URIs: []string{handle, client}}
+	for m := r.Intn(3); m > 0; m-- {
+		switch r.Intn(16) {
+		case 0:
+			k.DN = nil
+		case 1:
+			k.DN = append(k.DN, c.Pick(r, []string{name, "Mallory", "#int"}))
+		case 2:
+			k.DN = []string{c.Pick(r, []string{"Mallory", "#int", strings.ToUpper(name)})}
+		case 3:
+			k.Org = nil
+		case 4:
+			k.Org = []string{c.Pick(r, []string{strings.ToUpper(domain), "evil.org", domain + "."}), domain}
+		case 5:
+			k.URIs = k.URIs[:1]
+		case 6:
+			k.URIs = append(k.URIs, c.Pick(r, []string{handle, "wireapp://zzz", "https://a.example.com/x"}))
+		case 7:
+			k.URIs = []string{client, handle}
+		case 8:
+			if len(k.URIs) == 0 {
+				continue
+			}
+			k.URIs[r.Intn(len(k.URIs))] = c.Pick(r, []string{"wireapp://zzz", "wireapp://%40ALICE_wire@wire.com", handle})
+		case 9:
+			k.CN = c.Pick(r, []string{name, "a.example.com"})
+		case 10:
+			k.DNS = []string{"a.example.com"}
+		case 11:
+			k.Emails = []string{"root@example.com"}
+		case 12: // identifier lists createWireSubject / sans must refuse or survive
+			switch r.Intn(5) {
+			case 0:
+				k.IDs = k.IDs[:1]
+			case 1:
+				k.IDs = append(k.IDs, ID{"wireapp-device", dev})
+			case 2:
+				k.IDs = append(k.IDs, ID{"dns", "a.example.com"})
+			case 3:
+				if len(k.IDs) == 0 {
+					continue
+				}
+				k.IDs[0].V = c.Pick(r, []string{`{"name":"x"}`, `not json`, fmt.Sprintf(`{"name":%q,"domain":%q,"handle":"%%zz"}`, name, domain)})
+			case 4:
+				k.IDs = []ID{{"wireapp-device", dev}, {"wireapp-user", user}}
+			}
+		case 13: // handle and client id the same URI (b009637)
+			same := fmt.Sprintf(`{"name":%q,"domain":%q,"client-id":%q,"handle":%q}`, name, domain, handle, handle)
+			if len(k.IDs) < 2 {
+				continue
+			}
+			k.IDs[1].V = same
+			k.URIs = []string{handle, c.Pick(r, []string{handle, "wireapp://zzz"})}
+		case 14:
+			if len(k.IDs) < 2 {
+				continue
+			}
+			k.IDs[1].V = fmt.Sprintf(`{"name":%q,"domain":%q,"client-id":"%%zz","handle":%q}`, name, domain, handle)
+		case 15:
+			k.Key = 2
+			k.FPs = []int{1}
+		}
+	}
+	if len(k.FPs) < len(k.IDs) {
+		k.FPs = append(k.FPs, make([]int, len(k.IDs)-len(k.FPs))...)
+	}
+	return k
+}
+
 func genCase(r *c.Rng) *Case {
-	switch r.Intn(10) {
+	switch r.Intn(12) {
+	case 10:
+		return genWire(r)
 	case 3:
 		return genOrd(r)
 	case 0:
@@ -687,6 +838,9 @@ func corner() []*Case {
 		{Kind: "fin", Key: 1, IDs: []ID{d("a.example.com")}, DNS: []string{"a.example.com", "b.example.com"}},
 		{Kind: "fin", Key: 1, IDs: []ID{d("a.example.com"), d("b.example.com")}, DNS: []string{"a.example.com"}},
 		{Kind: "fin", Key: 1, IDs: []ID{d("a.example.com")}, DNS: []string{"a.example.com"}, CN: "b.example.com"},
+		// C13-F5: a common name that is not the validated name but lower-cases onto it (KELVIN SIGN, I WITH DOT ABOVE)
+		{Kind: "fin", Key: 1, IDs: []ID{d("kiwi.example.com")}, DNS: []string{"kiwi.example.com"}, CN: "\u212aiwi.example.com"},
+		{Kind: "fin", Key: 1, IDs: []ID{d("a.example.io")}, CN: "a.example.\u0130o"},
 		{Kind: "fin", Key: 1, IDs: []ID{d("a.example.com")}, DNS: []string{"a.example.com"}, Emails: []string{"root@example.com"}},
 		{Kind: "fin", Key: 1, IDs: []ID{d("a.example.com")}, DNS: []string{"a.example.com"}, URIs: []string{"https://a.example.com/"}},
 		{Kind: "fin", Key: 1, IDs: []ID{i("10.0.0.1")}, CN: "::ffff:10.0.0.1"},
@@ -725,9 +879,18 @@ func main() {
 	out := flag.String("out", "", "output file (input<TAB>impl)")
 	replay := flag.String("replay", "", "file of model input lines (case=… field) to re-run instead of generating")
 	probeWire := flag.Bool("probe-wire-uri", false, "not a check stage: call (*Order).sans on a Wire order whose handle and client id are the same URI, with a CSR of two distinct URIs (C18 material)")
+	probeWireSubject := flag.Bool("probe-wire-subject", false, "not a check stage: finalize a ready Wire order with a CSR whose display-name subject attribute is an INTEGER (C18 material)")
 	flag.Parse()
 	if *probeWire {
 		fmt.Println(probeWireURI())
+		return
+	}
+	if *probeWireSubject {
+		if err := setup(); err != nil {
+			fmt.Println(err)
+			return
+		}
+		fmt.Println(probeWireSubjectCrash())
 		return
 	}
 	if err := setup(); err != nil {
@@ -778,6 +941,18 @@ func main() {
 	for _, k := range cornerOrd() {
 		k.emit(o)
 	}
+	for i := 0; i < 12; i++ { // Wire orders: the plain one first, then fixed-seed variants
+		rw := c.NewRng(uint64(1000 + i))
+		k := genWire(rw)
+		if i == 0 {
+			k = &Case{Kind: "fin", Key: 1, FPs: []int{0, 0}, IDs: []ID{
+				{"wireapp-user", `{"name":"Alice Smith","domain":"wire.com","handle":"wireapp://%40alice_wire@wire.com"}`},
+				{"wireapp-device", `{"name":"Alice Smith","domain":"wire.com","client-id":"wireapp://CzbfFjDOQrenCbDxVmgnFw!594930e9d50bb175@wire.com","handle":"wireapp://%40alice_wire@wire.com"}`}},
+				DN: []string{"Alice Smith"}, Org: []string{"wire.com"},
+				URIs: []string{"wireapp://%40alice_wire@wire.com", "wireapp://CzbfFjDOQrenCbDxVmgnFw!594930e9d50bb175@wire.com"}}
+		}
+		k.emit(o)
+	}
 	r := c.NewRng(c.Seed())
 	for i := 0; i < *n; i++ {
 		genCase(r.Fork()).emit(o)
@@ -802,4 +977,31 @@ func probeWireURI() (out string) {
 	u2, _ := url.Parse("wireapp://zzz")
 	_, err := o.VerifSans(&x509.CertificateRequest{URIs: []*url.URL{u1, u2}})
 	return fmt.Sprintf("NewOrderRequest.Validate: %v; sans: no panic, err=%v", verr, err)
+}
+
+// probeWireSubjectCrash: createWireSubject asserts entry.Value.(string) on the CSR's subject
+// attribute 2.16.840.1.113730.3.1.241 without checking the dynamic type.
+func probeWireSubjectCrash() (out string) {
+	defer func() {
+		if r := recover(); r != nil {
+			out = fmt.Sprintf("panic: %v", r)
+		}
+	}()
+	user := `{"name":"Alice Smith","domain":"wire.com","handle":"wireapp://%40alice_wire@wire.com"}`
+	dev := `{"name":"Alice Smith","domain":"wire.com","client-id":"wireapp://u!d@wire.com","handle":"wireapp://%40alice_wire@wire.com"}`
+	o := &acme.Order{ID: "o", AccountID: "acc", ProvisionerID: prov.GetID(), Status: acme.StatusReady, ExpiresAt: time.Now().Add(time.Hour),
+		Identifiers: []acme.Identifier{{Type: acme.WireUser, Value: user}, {Type: acme.WireDevice, Value: dev}}}
+	tmpl := &x509.CertificateRequest{Subject: pkix.Name{Organization: []string{"wire.com"},
+		ExtraNames: []pkix.AttributeTypeAndValue{{Type: []int{2, 16, 840, 1, 113730, 3, 1, 241}, Value: 5}}}}
+	der, err := x509.CreateCertificateRequest(rand.Reader, tmpl, keys[1])
+	if err != nil {
+		return "csr: " + err.Error()
+	}
+	csr, err := x509.ParseCertificateRequest(der)
+	if err != nil {
+		return "parse: " + err.Error()
+	}
+	db := &acme.MockWireDB{MockDB: acme.MockDB{}}
+	err = o.Finalize(context.Background(), db, csr, ca.Auth, prov)
+	return fmt.Sprintf("no panic, err=%v", err)
 }
